@@ -207,7 +207,28 @@ func genCase(t *rapid.T) Case {
 		fmt.Fprintf(&g.sb, "//\tContact: John Doe<john.doe@example.com> http://john.doe.com\n")
 		g.expect("meta", "john.doe@example.com", "info", "contact", "email")
 	}
-	fmt.Fprintf(&g.sb, "//\n//\tConsumes:\n//\t- application/json\n//\n//\tProduces:\n//\t- application/json\n//\n// swagger:meta\npackage api\n\n")
+	fmt.Fprintf(&g.sb, "//\n//\tConsumes:\n//\t- application/json\n//\n//\tProduces:\n//\t- application/json\n//\n")
+	withSecurity := chance(t, "metasec", 50)
+	if chance(t, "metaext", 35) {
+		g.sb.WriteString("//\tExtensions:\n//\tx-meta-value: value\n//\tx-meta-array:\n//\t  - value1\n//\t  - value2\n//\n")
+		g.expect("meta-extensions", "value", "x-meta-value")
+		g.expect("meta-extensions", A{"value1", "value2"}, "x-meta-array")
+	}
+	if chance(t, "infoext", 25) {
+		g.sb.WriteString("//\tInfoExtensions:\n//\tx-info-value: value\n//\n")
+		g.expect("meta-extensions", "value", "info", "x-info-value")
+	}
+	if withSecurity {
+		g.sb.WriteString("//\tSecurity:\n//\t- api_key:\n//\n//\tSecurityDefinitions:\n//\tapi_key:\n//\t     type: apiKey\n//\t     name: KEY\n//\t     in: header\n//\toauth2:\n//\t    type: oauth2\n//\t    authorizationUrl: /oauth2/auth\n//\t    tokenUrl: /oauth2/token\n//\t    scopes:\n//\t      read: may read\n//\t      write: may write\n//\t    flow: accessCode\n//\n")
+		g.expect("meta-security", "apiKey", "securityDefinitions", "api_key", "type")
+		g.expect("meta-security", "KEY", "securityDefinitions", "api_key", "name")
+		g.expect("meta-security", "header", "securityDefinitions", "api_key", "in")
+		g.expect("meta-security", "oauth2", "securityDefinitions", "oauth2", "type")
+		g.expect("meta-security", "accessCode", "securityDefinitions", "oauth2", "flow")
+		g.expect("meta-security", "may write", "securityDefinitions", "oauth2", "scopes", "write")
+		g.expect("meta-security", A{J{"api_key": A{}}}, "security")
+	}
+	g.sb.WriteString("// swagger:meta\npackage api\n\n")
 	g.expect("meta", title, "info", "title")
 	g.expect("meta", version, "info", "version")
 	g.expect("meta", basePath, "basePath")
@@ -276,6 +297,30 @@ func genCase(t *rapid.T) Case {
 		}
 		models = append(models, name)
 		modelGo[name] = goName
+	}
+
+	// --- named string format, enum type, allOf composition
+	if chance(t, "strfmt", 40) {
+		g.sb.WriteString("// Stamp is a formatted string.\n//\n// swagger:strfmt date\ntype Stamp string\n\n// StampHolder is a model.\n//\n// swagger:model\ntype StampHolder struct {\n\t// When it happened.\n\tWhen Stamp `json:\"when\"`\n}\n\n")
+		g.expect("strfmt", "string", "definitions", "StampHolder", "properties", "when", "type")
+		g.expect("strfmt", "date", "definitions", "StampHolder", "properties", "when", "format")
+		models = append(models, "StampHolder")
+		modelGo["StampHolder"] = "StampHolder"
+	}
+	if chance(t, "enumtype", 40) {
+		g.sb.WriteString("// Colour is an enumeration.\n//\n// swagger:enum Colour\ntype Colour string\n\nconst (\n\t// ColourRed is red.\n\tColourRed Colour = \"red\"\n\t// ColourGreen is green.\n\tColourGreen Colour = \"green\"\n)\n\n// Painted is a model.\n//\n// swagger:model\ntype Painted struct {\n\t// Paint of the thing.\n\tPaint Colour `json:\"paint\"`\n}\n\n")
+		g.expect("enum-type", A{"red", "green"}, "definitions", "Painted", "properties", "paint", "enum")
+		models = append(models, "Painted")
+		modelGo["Painted"] = "Painted"
+	}
+	if len(models) > 0 && chance(t, "allof", 40) {
+		base := models[0]
+		fmt.Fprintf(&g.sb, "// Composed embeds another model.\n//\n// swagger:model\ntype Composed struct {\n\t// swagger:allOf\n\t%s\n\n\t// Extra of the composition.\n\t//\n\t// required: true\n\t// example: 12\n\t// default: 7\n\tExtra int32 `json:\"extra\"`\n}\n\n", goNameOf(base))
+		g.expect("allOf", "#/definitions/"+base, "definitions", "Composed", "allOf", "0", "$ref")
+		g.expect("allOf", "integer", "definitions", "Composed", "allOf", "1", "properties", "extra", "type")
+		g.expect("allOf-default", float64(7), "definitions", "Composed", "allOf", "1", "properties", "extra", "default")
+		g.expect("allOf-example", float64(12), "definitions", "Composed", "allOf", "1", "properties", "extra", "example")
+		g.expect("allOf-required", A{"extra"}, "definitions", "Composed", "allOf", "1", "required")
 	}
 
 	// --- responses
@@ -400,6 +445,16 @@ func genCase(t *rapid.T) Case {
 		if chance(t, l+"_depr", 15) {
 			g.sb.WriteString("\t// Deprecated: true\n\t//\n")
 			g.expect("route-deprecated", true, "paths", path, lm, "deprecated")
+		}
+		if withSecurity && chance(t, l+"_sec", 40) {
+			g.sb.WriteString("\t// Security:\n\t// api_key:\n\t// oauth2: read, write\n\t//\n")
+			// whether the listed schemes form one requirement (AND) or alternatives (OR) is not documented: each must appear
+			g.expect("route-security", A{}, "paths", path, lm, "security", "any:api_key")
+			g.expect("route-security", A{"read", "write"}, "paths", path, lm, "security", "any:oauth2")
+		}
+		if chance(t, l+"_ext", 30) {
+			g.sb.WriteString("\t// Extensions:\n\t// x-some-flag: false\n\t// x-some-list:\n\t//   - item1\n\t//   - item2\n\t//\n")
+			g.expect("route-extensions", A{"item1", "item2"}, "paths", path, lm, "x-some-list")
 		}
 		routeParams := map[string]bool{}
 		if chance(t, l+"_rparams", 40) {
@@ -615,8 +670,33 @@ func lookup(doc any, path []string) (any, bool, string) {
 			}
 			cur = v
 		case A:
+			if strings.HasPrefix(p, "any:") {
+				key := strings.TrimPrefix(p, "any:")
+				var found any
+				ok := false
+				for _, e := range x {
+					if ej, isObj := e.(J); isObj && !ok {
+						if v, has := ej[key]; has {
+							found, ok = v, true
+						}
+					}
+				}
+				if !ok {
+					return nil, false, "list-member"
+				}
+				if found == nil {
+					found = A{}
+				}
+				cur = found
+				continue
+			}
 			if !strings.HasPrefix(p, "param=") {
-				return nil, false, "unexpected-list"
+				var idx int
+				if _, err := fmt.Sscanf(p, "%d", &idx); err != nil || idx < 0 || idx >= len(x) {
+					return nil, false, "list-index"
+				}
+				cur = x[idx]
+				continue
 			}
 			sel := strings.SplitN(strings.TrimPrefix(p, "param="), "/", 2)
 			var found any
